@@ -1,3 +1,4 @@
 import Tie.Flags
 import Tie.Excerpt
 import Tie.MetaTable
+import Tie.Binders
